@@ -8,8 +8,10 @@ Property theorems only. Model: `Model/Service/Conns.lean` (the service) and
 `Model/Service/Order.lean` (what the rest of litep2p guarantees about its inputs); lemmas:
 `Proofs/Service/Conns.lean`. A *history* is a list of `Op` — events arriving on the service's
 channel in the order it processes them, calls of `open_substream` with arbitrary outcomes of
-`try_get_permit`/`try_send` (so all keep-alive behaviour and all channel states are covered), and
-allocations of the shared id counter by others. `trace` is what the protocol observes.
+`try_get_permit`/`try_send` (so all keep-alive behaviour and all channel states are covered),
+calls of `force_close` (again with arbitrary outcomes of the two sends) and of the methods that only delegate to the
+manager handle, at ANY point, and allocations of the shared id counter by others. `trace` is what the protocol
+observes.
 -/
 namespace Litep2pVerif.Props.C08
 open Litep2pVerif Litep2pVerif.Service
@@ -20,6 +22,13 @@ established / closed, starting with established. -/
 theorem alternation (ops : List Op) (p : Peer) :
     alternates true (connEvents p (trace {} ops)) = true := by
   simpa [connected, cget] using alternation_gen p ops {}
+
+/-- Non-vacuity: two overlapping connections closing in either order, then a third; `force_close` while two
+connections overlap, with either close order afterwards. -/
+example : connEvents 1 (trace {} [.inner (.established 1 10), .inner (.established 1 11), .forceClose 1 .ok .ok,
+    .inner (.closed 1 10), .forceClose 1 .ok .ok, .inner (.closed 1 11), .forceClose 1 .ok .ok,
+    .inner (.established 1 12), .inner (.established 1 13), .forceClose 1 .full .closed,
+    .inner (.closed 1 13), .inner (.closed 1 12)]) = [true, false, true, false] := by decide
 
 /-- Non-vacuity: two overlapping connections closing in either order, then a third. -/
 example : connEvents 1 (trace {} [.inner (.established 1 10), .inner (.established 1 11),
@@ -55,6 +64,21 @@ example :
     feasible {} {} ops = true ∧ trace {} ops = [.ev (.established 1), .silent, .silent, .ev (.closed 1)] := by
   decide
 
+/-- Non-vacuity (the shape of seeded change C08-e1): `force_close` while two connections overlap; the primary
+reports closed first — no event, the secondary is promoted and still delivers a substream; `ConnectionClosed` comes
+with the close of the secondary. The same with the secondary closing first. -/
+example :
+    let ops := [Op.inner (.established 1 10), .inner (.established 1 11), .forceClose 1 .ok .ok,
+      .inner (.closed 1 10), .inner (.subOpened 1 none 11), .inner (.closed 1 11)]
+    let ops' := [Op.inner (.established 1 10), .inner (.established 1 11), .forceClose 1 .ok .ok,
+      .inner (.closed 1 11), .inner (.subOpened 1 none 10), .inner (.closed 1 10)]
+    feasible {} {} ops = true ∧ feasible {} {} ops' = true ∧
+    trace {} ops = [.ev (.established 1), .silent, .force none [11, 10], .silent, .ev (.subOpened 1 none),
+      .ev (.closed 1)] ∧
+    trace {} ops' = [.ev (.established 1), .silent, .force none [11, 10], .silent, .ev (.subOpened 1 none),
+      .ev (.closed 1)] := by
+  decide
+
 /-- **Substream events refer to a connected peer.** In a feasible history, whenever the service
 emits `SubstreamOpened{p}` the peer `p` is connected (in `connections`, i.e. between the emitted
 established and closed); whenever it emits `SubstreamOpenFailure{sid}` the failure answers an
@@ -81,6 +105,56 @@ example :
       .inner (.subOpened 1 none 11), .inner (.subFailed 0)]
     feasible {} {} ops = true ∧ trace {} ops =
       [.ev (.established 1), .silent, .openOk 0 10, .ev (.subOpened 1 none), .ev (.subFailed 0)] := by
+  decide
+
+/-- Non-vacuity with `force_close`: the request was accepted before the call, the forcibly closed primary goes
+first, the answer to the request is lost with it; an inbound substream of the promoted secondary still refers to a
+connected peer; a new request goes to the promoted connection. -/
+example :
+    let ops := [Op.inner (.established 1 10), .inner (.established 1 11), .open 1 true .ok,
+      .forceClose 1 .ok .ok, .inner (.closed 1 10), .inner (.subOpened 1 none 11), .open 1 true .ok,
+      .inner (.subFailed 1), .inner (.closed 1 11)]
+    feasible {} {} ops = true ∧ trace {} ops =
+      [.ev (.established 1), .silent, .openOk 0 10, .force none [11, 10], .silent, .ev (.subOpened 1 none),
+       .openOk 1 11, .ev (.subFailed 1), .ev (.closed 1)] := by
+  decide
+
+/-- **`force_close` keeps the peer context.** `TransportService::force_close(peer)` sends
+`ProtocolCommand::ForceClose` to the connections of the peer's context and changes nothing else: for EVERY history
+`pre` before it, every `post` after it and every outcome of the two sends,
+
+1. the service's state (so: `connections`, primary and secondary handle of every peer) is the same before and after
+   the call — a connection stays in the context until ITS OWN close report arrives;
+2. the state after the whole history is the one without the call, and the protocol observes of everything else
+   exactly what it observes without the call;
+3. the environment may do exactly the same with and without the call (the forcibly closed connections are still live:
+   they may still deliver substream events and will report closed, in either order — `closed_iff_last` and
+   `substream_refers_connected` therefore speak about them like about any other connection);
+4. who is told: with room in both command channels exactly the connections of the context, secondary first; never a
+   connection outside the context; nobody (and `PeerDoesntExist`) if the peer is not connected. -/
+theorem force_close_keeps_context (pre post : List Op) (p : Peer) (sec prim : SendRes) :
+    (step (run {} pre) (.forceClose p sec prim)).1 = run {} pre ∧
+    run {} (pre ++ .forceClose p sec prim :: post) = run {} (pre ++ post) ∧
+    trace {} (pre ++ .forceClose p sec prim :: post) =
+      trace {} pre ++ (step (run {} pre) (.forceClose p sec prim)).2 :: trace (run {} pre) post ∧
+    feasible {} {} (pre ++ .forceClose p sec prim :: post) = feasible {} {} (pre ++ post) ∧
+    (cget (run {} pre).conns p = none →
+      (step (run {} pre) (.forceClose p sec prim)).2 = .force (some .peerDoesntExist) []) ∧
+    (∀ ctx, cget (run {} pre).conns p = some ctx →
+      (step (run {} pre) (.forceClose p .ok .ok)).2 = .force none (ctx.secondary.toList ++ [ctx.primary]) ∧
+      ∀ r cs, (step (run {} pre) (.forceClose p sec prim)).2 = .force r cs → ∀ c ∈ cs, ctx.has c) := by
+  obtain ⟨h1, h2, h3⟩ := forceClose_insert pre post {} {} p sec prim
+  exact ⟨step_forceClose_state _ p sec prim, h1, h2, h3, (forceClose_cmds _ p sec prim).1,
+    (forceClose_cmds _ p sec prim).2⟩
+
+/-- Non-vacuity: a context with two connections; the call with a clogged primary channel still reaches the secondary
+and reports `ChannelClogged`; nothing changed. -/
+example :
+    let pre := [Op.inner (.established 1 10), .inner (.established 1 11), .open 1 true .ok]
+    cget (run {} pre).conns 1 = some ⟨10, some 11⟩ ∧
+    step (run {} pre) (.forceClose 1 .ok .full) = (run {} pre, .force (some .channelClogged) [11]) ∧
+    step (run {} pre) (.forceClose 1 .ok .ok) = (run {} pre, .force none [11, 10]) ∧
+    step (run {} pre) (.forceClose 2 .ok .ok) = (run {} pre, .force (some .peerDoesntExist) []) := by
   decide
 
 /-- **Answered at most once, with the same id.** In a feasible history no substream id is answered
@@ -246,6 +320,7 @@ end Litep2pVerif.Props.C08
 #print axioms Litep2pVerif.Props.C08.open_answered_at_most_once
 #print axioms Litep2pVerif.Props.C08.open_answered_once_unless_closed
 #print axioms Litep2pVerif.Props.C08.ids_fresh
+#print axioms Litep2pVerif.Props.C08.force_close_keeps_context
 
 /-! ## Wiring — what `Litep2p::new` hands over (coverage round `node`)
 
